@@ -69,7 +69,7 @@ def to_abs(t):
     if k == 'func': return ('func', t[1], tuple(to_abs(x) for x in t[2]))
     if k == 'gc': return ('gc', to_abs(t[1]))
     if k == 'gb': return ('gb', t[1], None if t[2] is None else tuple(to_abs(x) for x in t[2]))
-    if k in ('gand', 'gor', 'gnot'): return (k, tuple(to_abs(x) for x in t[1]))
+    if k in ('gand', 'gor', 'gnot', 'gtime'): return (k, tuple(to_abs(x) for x in t[1]))
     return t
 
 
@@ -83,6 +83,7 @@ def gtext(g):
     if k == 'gand': return ', '.join(('(%s)' % gtext(x)) if x[0] == 'gor' else gtext(x) for x in g[1])
     if k == 'gor': return '; '.join(gtext(x) for x in g[1])
     if k == 'gnot': return 'not(%s)' % gtext(g[1][0])
+    if k == 'gtime': return 'time(%s)' % gtext(g[1][0])
     return repr(g)
 
 
